@@ -128,7 +128,7 @@ func RunCases(t *testing.T, rep *Report, testName string, n, workers int, stall 
 						from = doneThrough + workers
 						continue
 					}
-					how = fmt.Sprintf("hang (confirmed: no completion within %s when run alone)", confirm)
+					how = fmt.Sprintf("hang: confirmed, no completion within %s when run alone", confirm)
 				}
 				dmu.Lock()
 				deaths++
